@@ -263,7 +263,22 @@ def run(c, a):
                             d = dict(o)
                             d.update(mode="acl", value=val, bypass=bypass, variant=variant, id=len(acl) + 1)
                             acl.append(d)
+            # the verdict must not depend on the size of the request: per request type, the shallowest namespace path with a forbidden
+            # name next to a 1.5 MiB opaque payload in the request's first field that can hold one (the harness skips the others)
+            seen_root = set()
+            for o in sorted(ns, key=lambda x: len(x["path"])):
+                rk = o["root"]["type"]
+                if o["root"]["dir"] != "req" or o["root"]["stream"] or o["root"]["method"] in ALWAYS_DENIED or rk in seen_root:
+                    continue
+                seen_root.add(rk)
+                for bypass in (False, True):
+                    d = dict(o)
+                    d.update(mode="acl", value="ns-forbidden", bypass=bypass, variant="big", id=len(acl) + 1)
+                    acl.append(d)
             orecs = p_schema.run_obligations(c, acl, "acl")
+            nbig = sum(1 for r_ in orecs if r_.get("variant") == "big" and not r_.get("scope"))
+            orecs = [r_ for r_ in orecs if not r_.get("scope")]
+            extra["big_request_obligations"] = nbig
             viols = p_schema.judge(c, orecs, "acl")
             causes = {}
             for ln, clause in viols:
